@@ -488,4 +488,200 @@ theorem reachable_inv (proc : Nat → Nat) (n0 : Nat) (s : Sys) (h : Reachable p
   | step t _ hs ih => exact inv_step proc n0 _ _ t ih hs
   | fail t _ hs ih => exact inv_fail proc n0 _ _ t ih hs
 
+/-! ### descriptor numbers, other lock users, fallback writers -/
+
+/-- in the disciplined system flock(LOCK_UN) of an appender is always on a description that holds the lock. -/
+theorem funlockStep_eq {proc : Nat → Nat} {n0 : Nat} {s : Sys} (inv : Inv proc n0 s) (t : Nat) :
+    funlockStep proc true s t = step proc true s t := by
+  unfold funlockStep
+  split
+  · rename_i i hpc
+    have : s.holder = some t := (inv.holder_iff t).2 (by rw [hpc]; rfl)
+    simp [this]
+  · rename_i hpc
+    have : s.holder = some t := (inv.holder_iff t).2 (by rw [hpc]; rfl)
+    simp [this]
+  · rfl
+
+/-- what the discipline gives: every number an open file was given still names that file's description;
+no lock user is left with an unlock pending on a closed file; no fallback write has started. -/
+structure XInv (proc procU : Nat → Nat) (x : XSys) : Prop where
+  app_names : ∀ t n, x.appFd t = some n → x.names (proc t) n = some (.app t)
+  usr_names : ∀ u n, (x.upc u = .opened n ∨ x.upc u = .unlocked n) → x.names (procU u) n = some (.usr u)
+  no_closed : ∀ u n, x.upc u ≠ .closed n
+  byp_idle : ∀ t, x.byp t = .idle
+
+theorem xinv_init (proc procU : Nat → Nat) (n0 : Nat) : XInv proc procU (xinit n0) where
+  app_names := by intro t n h; simp [xinit] at h
+  usr_names := by intro u n h; simp [xinit] at h
+  no_closed := by intro u n; simp [xinit]
+  byp_idle := by intro t; rfl
+
+theorem setName_other (x : XSys) (p n q m : Nat) (o : Option Owner) (h : ¬ (q = p ∧ m = n)) :
+    setName x p n o q m = x.names q m := by
+  simp [setName, h]
+
+theorem setName_same (x : XSys) (p n : Nat) (o : Option Owner) : setName x p n o p n = o := by
+  simp [setName]
+
+/-- a disciplined step keeps `XInv`, and changes the appenders' system only by one of their own
+atomic steps (or not at all). -/
+theorem xstep_disciplined (proc procU : Nat → Nat) (n0 : Nat) (x x' : XSys) (a : XAct)
+    (xi : XInv proc procU x) (r : Reachable proc true n0 x.sys)
+    (h : xstep proc procU true disciplined x a = some x') :
+    XInv proc procU x' ∧ Reachable proc true n0 x'.sys := by
+  cases a with
+  | st t =>
+    simp only [xstep] at h
+    split at h
+    · rw [funlockStep_eq (reachable_inv proc n0 _ r) t] at h
+      cases hs : step proc true x.sys t with
+      | none => rw [hs] at h; simp at h
+      | some s' =>
+        rw [hs] at h; simp only [Option.map_some, Option.some.injEq] at h; subst h
+        exact ⟨⟨xi.app_names, xi.usr_names, xi.no_closed, xi.byp_idle⟩, .step t r hs⟩
+    · simp at h
+  | fl t =>
+    simp only [xstep] at h
+    split at h
+    · cases hs : failStep x.sys t with
+      | none => rw [hs] at h; simp at h
+      | some s' =>
+        rw [hs] at h; simp only [Option.map_some, Option.some.injEq] at h; subst h
+        exact ⟨⟨xi.app_names, xi.usr_names, xi.no_closed, xi.byp_idle⟩, .fail t r hs⟩
+    · simp at h
+  | aopen t n =>
+    simp only [xstep] at h
+    split at h
+    · rename_i g
+      obtain ⟨_, g2, g3⟩ := g
+      simp only [Option.some.injEq] at h; subst h
+      refine ⟨⟨?_, ?_, xi.no_closed, xi.byp_idle⟩, r⟩
+      · intro u m hu
+        simp only [] at hu ⊢
+        by_cases hut : u = t
+        · subst hut; simp at hu; subst hu; exact setName_same _ _ _ _
+        · simp only [hut, if_false] at hu
+          have old := xi.app_names u m hu
+          rw [setName_other]; exact old
+          intro ⟨e1, e2⟩; rw [e1, e2, g3] at old; simp at old
+      · intro u m hu
+        have old := xi.usr_names u m hu
+        simp only []
+        rw [setName_other]; exact old
+        intro ⟨e1, e2⟩; rw [e1, e2, g3] at old; simp at old
+    · simp at h
+  | aclose t =>
+    simp only [xstep] at h
+    split at h
+    · rename_i n hfd
+      split at h
+      · simp only [Option.some.injEq] at h; subst h
+        have mine := xi.app_names t n hfd
+        refine ⟨⟨?_, ?_, xi.no_closed, xi.byp_idle⟩, r⟩
+        · intro u m hu
+          simp only [] at hu ⊢
+          by_cases hut : u = t
+          · subst hut; simp at hu
+          · simp only [hut, if_false] at hu
+            have old := xi.app_names u m hu
+            rw [setName_other]; exact old
+            intro ⟨e1, e2⟩; rw [e1, e2, mine] at old
+            simp only [Option.some.injEq, Owner.app.injEq] at old; exact hut old.symm
+        · intro u m hu
+          have old := xi.usr_names u m hu
+          simp only []
+          rw [setName_other]; exact old
+          intro ⟨e1, e2⟩; rw [e1, e2, mine] at old; simp at old
+      · simp at h
+    · simp at h
+  | bread t =>
+    simp only [xstep, disciplined] at h
+    simp at h
+  | bstore t =>
+    simp only [xstep] at h
+    have := xi.byp_idle t
+    rw [this] at h; simp at h
+  | uopen u n =>
+    simp only [xstep] at h
+    split at h
+    · rename_i g
+      obtain ⟨_, g2⟩ := g
+      simp only [Option.some.injEq] at h; subst h
+      refine ⟨⟨?_, ?_, ?_, xi.byp_idle⟩, r⟩
+      · intro t m ht
+        have old := xi.app_names t m ht
+        simp only []
+        rw [setName_other]; exact old
+        intro ⟨e1, e2⟩; rw [e1, e2, g2] at old; simp at old
+      · intro v m hv
+        simp only [] at hv ⊢
+        by_cases hvu : v = u
+        · subst hvu; simp at hv; subst hv; exact setName_same _ _ _ _
+        · simp only [hvu, if_false] at hv
+          have old := xi.usr_names v m hv
+          rw [setName_other]; exact old
+          intro ⟨e1, e2⟩; rw [e1, e2, g2] at old; simp at old
+      · intro v m
+        simp only []
+        by_cases hvu : v = u
+        · subst hvu; simp
+        · simp only [hvu, if_false]; exact xi.no_closed v m
+    · simp at h
+  | uunlock u =>
+    simp only [xstep, disciplined] at h
+    split at h
+    · rename_i n hpc
+      simp only [Bool.false_eq_true, if_false, Option.some.injEq] at h
+      have mine := xi.usr_names u n (Or.inl hpc)
+      have same : unlockNum x (procU u) n = x := by simp [unlockNum, mine]
+      rw [same] at h; subst h
+      refine ⟨⟨xi.app_names, ?_, ?_, xi.byp_idle⟩, r⟩
+      · intro v m hv
+        simp only [] at hv ⊢
+        by_cases hvu : v = u
+        · subst hvu; simp at hv; subst hv; exact mine
+        · simp only [hvu, if_false] at hv; exact xi.usr_names v m hv
+      · intro v m
+        simp only []
+        by_cases hvu : v = u
+        · subst hvu; simp
+        · simp only [hvu, if_false]; exact xi.no_closed v m
+    · rename_i n hpc; exact absurd hpc (xi.no_closed u n)
+    · simp at h
+  | uclose u =>
+    simp only [xstep, disciplined] at h
+    split at h
+    · simp at h
+    · rename_i n hpc
+      simp only [Option.some.injEq] at h; subst h
+      have mine := xi.usr_names u n (Or.inr hpc)
+      refine ⟨⟨?_, ?_, ?_, xi.byp_idle⟩, r⟩
+      · intro t m ht
+        have old := xi.app_names t m ht
+        simp only []
+        rw [setName_other]; exact old
+        intro ⟨e1, e2⟩; rw [e1, e2, mine] at old; simp at old
+      · intro v m hv
+        simp only [] at hv ⊢
+        by_cases hvu : v = u
+        · subst hvu; simp at hv
+        · simp only [hvu, if_false] at hv
+          have old := xi.usr_names v m hv
+          rw [setName_other]; exact old
+          intro ⟨e1, e2⟩; rw [e1, e2, mine] at old
+          simp only [Option.some.injEq, Owner.usr.injEq] at old; exact hvu old.symm
+      · intro v m
+        simp only []
+        by_cases hvu : v = u
+        · subst hvu; simp
+        · simp only [hvu, if_false]; exact xi.no_closed v m
+    · simp at h
+
+theorem xreachable_disciplined (proc procU : Nat → Nat) (n0 : Nat) (x : XSys)
+    (h : XReachable proc procU true disciplined n0 x) : XInv proc procU x ∧ Reachable proc true n0 x.sys := by
+  induction h with
+  | init => exact ⟨xinv_init proc procU n0, .init⟩
+  | step a _ hs ih => exact xstep_disciplined proc procU n0 _ _ a ih.1 ih.2 hs
+
 end PttVerif.C14
